@@ -95,6 +95,24 @@ var OutsideAtoms = []OutsideAtom{
 	{ID: "rangenokey", Kind: "stmt", Code: "for range s {\n\t\tx++\n\t}", Site: "rangeStmt binders"},
 	{ID: "rangeassign", Kind: "stmt", Code: "var ri int\n\tfor ri = range s {\n\t\tx += 1\n\t}\n\t_ = ri", Site: "rangeStmt with assignment"},
 	{ID: "closure_loopvar_ok", Kind: "stmt", Code: "for i := uint64(0); i < 2; i++ {\n\t\tf := func() uint64 {\n\t\t\treturn i + 1\n\t\t}\n\t\tx += f()\n\t}", Site: "closure using the loop variable inside the iteration"},
+	{ID: "earlyreturn_elseif", Kind: "stmt", Code: "if x > 5 {\n\t\treturn x\n\t} else if x == 1 {\n\t\tx = 7\n\t}\n\tx += 2", Site: "ifStmt: early return with an else-if arm", NoLoop: true},
+	{ID: "earlyreturn_elseif_else", Kind: "stmt", Code: "if x > 5 {\n\t\treturn x\n\t} else if x == 1 {\n\t\tx = 7\n\t} else {\n\t\tx = 9\n\t}\n\tx += 2", Site: "ifStmt", NoLoop: true},
+	{ID: "earlybreak_elseif", Kind: "stmt", Code: "for {\n\t\tif x > 3 {\n\t\t\tbreak\n\t\t} else if x == 1 {\n\t\t\tx = 7\n\t\t}\n\t\tx += 2\n\t}", Site: "ifStmt in loop"},
+	{ID: "elsereturn_then_falls", Kind: "stmt", Code: "if x > 5 {\n\t\tx = 1\n\t} else {\n\t\treturn x + 100\n\t}\n\tx += 2", Site: "ifStmt: return only in else", NoLoop: true},
+	{ID: "nested_return_in_plain_if", Kind: "stmt", Code: "if x > 2 {\n\t\tx += 1\n\t\tif x > 6 {\n\t\t\treturn x * 2\n\t\t}\n\t}\n\tx += 2", Site: "stmtInBlock: return in unsupported position", NoLoop: true},
+	{ID: "forinit_assign_define", Kind: "stmt", Code: "i := uint64(5)\n\tfor i = 0; i < 3; i++ {\n\t\tx += i\n\t}\n\tx += i", Site: "loopVar: initialization must define"},
+	{ID: "forinit_assign_param", Kind: "stmt", Code: "for a = 0; a < 3; a++ {\n\t\tx += a\n\t}\n\tx += a", Site: "loopVar"},
+	{ID: "forinit_var", Kind: "stmt", Code: "for var_i := uint64(0); var_i < 3; var_i += 1 {\n\t\tx += 1\n\t}", Site: "forStmt post with op-assign"},
+	{ID: "gofunclit_args", Kind: "stmt", Code: "go func(v uint64) {\n\t\tsideEffect(q, v)\n\t}(x)", Site: "goStmt: go statement with parameters"},
+	{ID: "defer_unlock", Kind: "stmt", Code: "mu := new(sync.Mutex)\n\tmu.Lock()\n\tdefer mu.Unlock()\n\tx += 1", Site: "defer", NoLoop: true},
+	{ID: "mutex_by_value", Kind: "stmt", Code: "var mu sync.Mutex\n\tmu.Lock()\n\tx += 1\n\tmu.Unlock()", Site: "selectorExprType: sync.Mutex without pointer indirection"},
+	{ID: "mutex_trylock", Kind: "stmt", Code: "mu := new(sync.Mutex)\n\tif mu.TryLock() {\n\t\tx += 1\n\t\tmu.Unlock()\n\t}", Site: "lockMethod: method of sync.Mutex"},
+	{ID: "rwmutex", Kind: "stmt", Code: "rw := new(sync.RWMutex)\n\trw.RLock()\n\tx += 1\n\trw.RUnlock()", Site: "sync.RWMutex is not a modelled lock"},
+	{ID: "cond_by_value", Kind: "stmt", Code: "mu := new(sync.Mutex)\n\tc := sync.Cond{L: mu}\n\tc.Signal()\n\tx += 1", Site: "sync.Cond by value"},
+	{ID: "once", Kind: "stmt", Code: "var once sync.Once\n\tonce.Do(func() {\n\t\tx += 5\n\t})", Site: "sync.Once"},
+	{ID: "five_results", Kind: "stmt", Code: "r1, r2, r3, r4, r5 := five(x)\n\tx = r1 + r2 + r3 + r4 + r5", Site: "Binding.AddTo: destructuring more than 4 values"},
+	{ID: "slice_of_slices", Kind: "stmt", Code: "ss := make([][]uint64, 2)\n\tss[1] = s\n\tx += ss[1][0] + uint64(len(ss[0]))", Site: "nested slices"},
+	{ID: "struct_in_map", Kind: "stmt", Code: "hm := make(map[uint64]H)\n\thm[1] = H{f: x}\n\tx += hm[1].f + hm[2].f", Site: "map of structs"},
 	// declaration-level atoms: each defines <ID>_fn(a uint64) uint64
 	{ID: "namedresult", Kind: "decl", Code: "func namedresult_fn(a uint64) (r uint64) {\n\tr = a + 1\n\treturn\n}", Site: "returnType: named returned value"},
 	{ID: "variadic", Kind: "decl", Code: "func variadic_sum(xs ...uint64) uint64 {\n\tvar t uint64\n\tfor _, v := range xs {\n\t\tt += v\n\t}\n\treturn t\n}\n\nfunc variadic_fn(a uint64) uint64 {\n\treturn variadic_sum(a, 2, 3)\n}", Site: "variadic call"},
@@ -116,7 +134,13 @@ var OutsideAtoms = []OutsideAtom{
 // HostPositions are the places a statement atom is inserted at.
 var HostPositions = []string{"first", "middle", "last", "inif", "inloop", "inelse", "inclosure"}
 
-const hostPrelude = `type H struct {
+const hostPrelude = `var _ = sync.NewCond
+
+func five(v uint64) (uint64, uint64, uint64, uint64, uint64) {
+	return v, 1, 2, 3, 4
+}
+
+type H struct {
 	f uint64
 	g uint32
 	b byte
@@ -137,11 +161,11 @@ func sideEffect0() {
 func OutsidePackage(a OutsideAtom) *Package {
 	var b strings.Builder
 	name := "o_" + a.ID
-	fmt.Fprintf(&b, "package %s\n\n", name)
+	fmt.Fprintf(&b, "package %s\n\nimport \"sync\"\n\n", name)
 	var cases []string
 	args := []uint64{0, 3, 8}
 	if a.Kind == "decl" {
-		b.WriteString(a.Code + "\n\n")
+		b.WriteString("var _ = sync.NewCond\n\n" + a.Code + "\n\n")
 		for i, v := range args {
 			cn := fmt.Sprintf("case_%s_decl_%d", a.ID, i)
 			fmt.Fprintf(&b, "func %s() uint64 {\n\treturn %s_fn(%d)\n}\n\n", cn, a.ID, v)
